@@ -95,3 +95,23 @@ pub fn fnv(data: &[u8]) -> u64 {
 pub fn fnv_str(s: &str) -> u64 {
     fnv(s.as_bytes())
 }
+
+/// drop the bytes that are not part of a valid UTF-8 sequence (a legitimately typed U+FFFD stays)
+pub fn drop_invalid_utf8(bytes: &[u8]) -> Vec<u8> {
+    let mut out = Vec::with_capacity(bytes.len());
+    let mut rest = bytes;
+    loop {
+        match std::str::from_utf8(rest) {
+            Ok(s) => {
+                out.extend_from_slice(s.as_bytes());
+                return out;
+            }
+            Err(e) => {
+                let (good, bad) = rest.split_at(e.valid_up_to());
+                out.extend_from_slice(good);
+                let skip = e.error_len().unwrap_or(bad.len());
+                rest = &bad[skip..];
+            }
+        }
+    }
+}
